@@ -392,6 +392,40 @@ fn main() {
         t
     });
 
+    // ---- S5b: word-level perturbations of the shortcut values: one (10^s at scale s) and zero, with whole
+    // 32/64-bit words added above or below: 10^s + j*2^(32w) at scale s must not be mistaken for one
+    let mut pert: Vec<Dec> = vec![];
+    for s in 0..=tier.pick(22i128, 40) {
+        let one_repr = pow10(s as u64);
+        for w in [1usize, 2, 3, 4] {
+            for j in [1i64, 2, -1] {
+                let v = &one_repr + (BigInt::from(j) << (32 * w));
+                if v != one_repr {
+                    pert.push(Dec { n: v.clone(), s });
+                    pert.push(Dec { n: -v, s });
+                }
+            }
+        }
+        // and zero plus a high word only
+        pert.push(Dec { n: BigInt::one() << 64usize, s });
+        pert.push(Dec { n: BigInt::one() << 128usize, s });
+    }
+    let partners: Vec<Dec> = vec![Dec::new(7, 0), Dec::new(-3, 2), Dec::new(1, 0), Dec::new(100, 2), Dec::new(0, 1)];
+    let pxs: Vec<BigDecimal> = partners.iter().map(bd).collect();
+    run.bound("S5b_word_perturbed_shortcut_values", pert.len());
+    run.par("S5b word-level perturbations of one and zero", pert.len(), |i| {
+        let mut t = Tally::default();
+        let xb = bd(&pert[i]);
+        t.states += 1;
+        for (q, qb) in partners.iter().zip(pxs.iter()) {
+            t.nontrivial += 2 * ds.len() as u64;
+            check_pair(&run, &ds, &is, &xb, qb, &pert[i], q, &mut t);
+            check_pair(&run, &ds, &is, qb, &xb, q, &pert[i], &mut t);
+        }
+        check_unary(&run, &pert[i], &mut t);
+        t
+    });
+
     // ---- S4: derived unary operations and sums -------------------------------------------------
     let lens: &[usize] = if tier.is_thorough() { &LONG_LENS_THOROUGH } else { &LONG_LENS_QUICK };
     let mut un: Vec<Dec> = a_set.clone();
